@@ -89,7 +89,8 @@ Fixpoint s_next (fuel : nat) (now : Z) (s : sched) : res (sched * Z * bool) :=
               do y <- s_next f now h2s ;;
               let '(h2', tx2, ok2) := y in
               let c' := Comp (h2' :: r2) (tl la) true in
-              if negb ok2 && (1 <? length (h2 :: r2))%nat
+              (* schedsLeftNow is the length BEFORE the shift, so this is just !ok *)
+              if negb ok2 && (1 <? length (h :: r))%nat
               then s_next f now c'                        (* "Okay, just retry." *)
               else Ok (c', tx2, ok2)
           end
